@@ -353,6 +353,10 @@ func init() {
 			for _, t := range []string{"\ufeffC[1]", "\ufeffC[1] D[1]\n", "C[1]\ufeff", "\ufeff", "C\ufeff[1]", "C[1] \ufeff D[1]", "C[1]\u200b D[1]", "\u200bC[1]", "C[1]\u00ad", "\u2060C[1]", "C[1]{a=\ufeffb}"} {
 				cases = append(cases, Case{"cmd": "strings", "text": t})
 			}
+			// digits of other scripts are not digits of the notation
+			for _, t := range []string{"C[1１]", "1/3१[2]", "2٣[1]", "C[１]", "C[1/２]", "１[1]", "C[1]{bpm=１２０}", "1٣m[1]", "C_７[1]", "5_7/３[1]"} {
+				cases = append(cases, Case{"cmd": "strings", "text": t})
+			}
 			ctl := []rune(ctlAlphabet)
 			for i := 0; i < nrand/3; i++ {
 				var sb strings.Builder
